@@ -17,4 +17,16 @@ EmitBehaviour ==
 EmitEdge ==
     CSVWrite("%1$s", <<ToJson([s |-> ToString(TourView), a |-> hist'[Len(hist')], t |-> ToString(TourView'),
                                d |-> Len(hist')])>>, IOEnv.QXV_GEN)
+
+\* Random walks (-simulate, StreamMgmtGenSim.cfg): TLC picks uniformly among successor states, so
+\* with h \in 0..MaxH most steps would be acknowledgements.  Here h is chosen relative to what has
+\* been sent: 0, stale, exact, beyond.
+SimH == {0, out, out + 1, out + 3} \cup (IF out >= 1 THEN {out - 1} ELSE {}) \cup (IF out >= 3 THEN {out - 3} ELSE {})
+SimNext ==
+    \/ SendStanza \/ SendStanza \/ SendNonza \/ Req \/ RecvStanza \/ RecvNonza \/ Loss
+    \/ \E h \in SimH : Ack(h)
+    \/ \E sm \in BOOLEAN : Reconnect(sm)
+    \/ \E h \in SimH : ResumeOk(h)
+    \/ ResumeFail \/ EnableOk \/ EnableFail
+SimSpec == Init /\ [][SimNext]_vars
 =============================================================================
